@@ -4,7 +4,7 @@ from __future__ import annotations
 
 import random
 
-from harness import e1, progs_storage, reftest
+from harness import e1, progs_storage, progs_symstore, reftest
 from harness.artifacts import Contract, Fn, panic, run_contract
 from harness.common import Check, MachineryError, cleanup, workdir
 from harness.e1corpus import Item, describe, run_items
@@ -90,6 +90,11 @@ def run(chk: Check, tier: str):
         prog, inputs = progs_storage.fam_storage(rnd, ninputs=9 if tier == "quick" else 12, transient=transient)
         layout = ("--storage-layout", "generic") if i % 2 else ()
         items.append(Item(prog, inputs, cli=layout))
+    nsym = max(12, n // 3)
+    for i in range(nsym):
+        # accounts with symbolic (arbitrary) storage: never-written elements hold the environment's values
+        prog, inputs = progs_symstore.fam_symstorage(rnd, ninputs=9 if tier == "quick" else 12)
+        items.append(Item(prog, inputs, cli=("--storage-layout", "generic") if i % 2 else ()))
     stuck_progs = 0
     for i in range(0, len(items), 120):
         outs = run_items(items[i : i + 120], chk)
@@ -107,6 +112,7 @@ def run(chk: Check, tier: str):
             it.key = it.key + (":generic" if layout else ":solidity")
         judge(chk, run_items(ps, chk, witnesses=False))
     chk.cov["programs"] = len(items)
+    chk.cov["programs_symbolic_storage"] = nsym
     chk.cov["programs_entirely_unsupported"] = stuck_progs
     transient_across_transactions(chk)
     chk.cov["rule"] = (
@@ -115,6 +121,8 @@ def run(chk: Check, tier: str):
         "the precomputed hash, additions in either order / re-associated), symbolic keys and indices evaluated on small "
         "colliding domains {0..3} and on large values, both --storage-layout settings, TSTORE/TLOAD variants; every written "
         "location is re-read by an epilogue in a possibly different form; the flat slot map of Evm.tla is the reference; "
-        "plus a two-transaction run_contract scenario for transient storage"
+        "plus programs over a typed layout whose account has symbolic storage (enabled initially or by svm.enableSymbolicStorage "
+        "/ vm.setArbitraryStorage): never-written slots hold slot xor MASK in Evm.tla and in the reading of halmos' initial "
+        "storage terms (harness/symstore.py); plus a two-transaction run_contract scenario for transient storage"
     )
     chk.assumptions += ["keccak is evaluated exactly (hash-collision-free inputs: assumption A4)", "symbolic *base* slots are outside halmos' solidity layout model (paths end stuck and are not judged)"]
